@@ -357,6 +357,7 @@ func c18(c *Ctx) {
 	c18EffectiveUpdates(c)
 	c18TokenExpiry(c)
 	c18AccountOwnership(c)
+	c18RevocationReachesEverySession(c)
 	c18PerMessageGate(c)
 	// ---- C18.4 SQL statements: readOnly() agrees with effects ------------------------------------------------------
 	c18SQLReadOnly(c)
@@ -1155,5 +1156,73 @@ func c18AccountOwnership(c *Ctx) {
 	}
 	if n < 2 {
 		c.undecided(r, "floor", fmt.Sprintf("%d rewrites of the creator of an existing account found (ChangePassword, SetActiveUser confirmed by hand)", n))
+	}
+}
+
+// outerLoopHeader: the header of the outermost natural loop that contains instruction in (nil when in is not in a loop).
+func outerLoopHeader(in ssa.Instruction) *ssa.BasicBlock {
+	b := in.Block()
+	var outer *ssa.BasicBlock
+	for _, h := range b.Parent().Blocks {
+		if !(h == b || h.Dominates(b)) {
+			continue
+		}
+		back := false
+		for _, p := range h.Preds {
+			if (h == p || h.Dominates(p)) && (p == b || reaches(b, p, h)) {
+				back = true
+			}
+		}
+		if !back {
+			continue
+		}
+		if outer == nil || h.Dominates(outer) {
+			outer = h
+		}
+	}
+	return outer
+}
+
+// c18RevocationReachesEverySession: a permission change, a deactivation or a password change ends the sessions of the
+// user; the callers do not look at the error. The walk over the sessions therefore goes on after a session that could
+// not be released cleanly: a return from inside the loop leaves the sessions not visited yet open, with the old rights.
+func c18RevocationReachesEverySession(c *Ctx) {
+	r := "C18.11/revocation-reaches-every-session"
+	rel := callTo("pkg/server/sessions.releaseSession")
+	n := 0
+	for _, f := range c.allFns {
+		if !fnInPkgs(f, []string{"pkg/server/sessions"}) || len(f.Blocks) == 0 {
+			continue
+		}
+		for i, in := range sites(f, rel) {
+			h := outerLoopHeader(in)
+			if h == nil {
+				continue
+			}
+			n++
+			ee := errEdgeOf(in)
+			var edges []cfgEdge
+			for _, b := range f.Blocks {
+				for si := range b.Succs {
+					if ee != nil && ee(b, si) {
+						edges = append(edges, cfgEdge{b, si})
+					}
+				}
+			}
+			construct := fmt.Sprintf("%s:releaseSession#%d:failure-does-not-end-the-walk", fnName(f), i)
+			if len(edges) == 0 {
+				c.ok(r, construct, c.pos(in.Pos()), "the error is not examined inside the loop")
+				continue
+			}
+			q := &pathQ{fn: f, fromEdges: edges, to: isReturn, via: func(x ssa.Instruction) bool { return x.Block() == h }}
+			if w := q.bypass(); w != nil {
+				c.fail(r, construct, c.pos(in.Pos()), "when a session can not be released the walk over the sessions is abandoned ("+c.witnessStr(w)+"): the sessions not visited yet stay open with the rights the user had, and the callers ignore the error")
+			} else {
+				c.ok(r, construct, c.pos(in.Pos()), "after a failed release the walk goes on with the next session")
+			}
+		}
+	}
+	if n < 2 {
+		c.undecided(r, "floor", fmt.Sprintf("%d releases of sessions inside loops found (CloseSessionsForUser, expireSessions confirmed by hand)", n))
 	}
 }
